@@ -35,6 +35,10 @@ pub struct K17 {
     /// receiver position (--lat / --long)
     #[serde(default = "default_rx")]
     pub rx: (f64, f64),
+    /// coverage sweep: one aircraft reports this many positions in distinct 0.01 degree cells
+    /// (state that accumulates slowly over a long session), delivered as a backlog
+    #[serde(default)]
+    pub sweep: usize,
 }
 
 fn default_rx() -> (f64, f64) {
@@ -103,7 +107,7 @@ pub const INVALID_CLI: [&[&str]; 18] = [
 pub fn generate(rng: &mut Rng, fault_free: bool) -> K17 {
     if !fault_free && rng.chance(0.08) {
         let a = *rng.pick(&INVALID_CLI);
-        return K17 { args: vec![], cols: 80, rows: 24, refused_first: 0, lines: vec![], events: vec![], quit_at_us: 100_000, quit_ctrl_c: false, proc_delay_us: vec![], reconnect_at_us: None, invalid_cli: Some(a.iter().map(|s| s.to_string()).collect()), rx: (35.0, -80.0) };
+        return K17 { args: vec![], cols: 80, rows: 24, refused_first: 0, lines: vec![], events: vec![], quit_at_us: 100_000, quit_ctrl_c: false, proc_delay_us: vec![], reconnect_at_us: None, invalid_cli: Some(a.iter().map(|s| s.to_string()).collect()), rx: (35.0, -80.0), sweep: 0 };
     }
     let (cols, rows) = if fault_free {
         *rng.pick(&[(80u16, 24u16), (120, 40)])
@@ -165,14 +169,15 @@ pub fn generate(rng: &mut Rng, fault_free: bool) -> K17 {
         let lon = if on_top { RX.1 } else { RX.1 + rng.f64_range(-0.8, 0.8) };
         while t < to && lines.len() < if deep { 400 } else { 150 } {
             ctr += 1;
-            let me = match ctr % 4 {
+            let me = match ctr % 6 {
                 0 => wire::me_identification(4, 0, &format!("AC{a}X{}", ctr % 10)),
                 1 | 2 => {
                     odd = !odd;
                     let (yz, xz) = wire::cpr_encode(if on_top { lat } else { (lat + 0.0005 * ctr as f64).clamp(-89.95, 89.95) }, lon, odd);
                     wire::me_airborne_position(11, 0, 0, wire::ac12_q(10_000 + 1000 * a as i32), false, odd, yz, xz)
                 }
-                _ => wire::me_velocity(1, 0, wire::sub_ground_speed(0, 100 + ctr as u16, 0, 200), 0, 0, 10, 0, 3),
+                // every velocity report with its own random vector: headings all round the compass
+                _ => wire::me_velocity(1 + rng.below(2) as u8, 0, wire::sub_ground_speed(rng.below(2) as u8, 1 + rng.below(1023) as u16, rng.below(2) as u8, 1 + rng.below(1023) as u16), rng.below(2) as u8, rng.below(2) as u8, rng.below(512) as u16, 0, 3),
             };
             lines.push((t, wire::hex(&wire::df17(5, addr, me))));
             t += 120_000 + rng.below(200_000);
@@ -231,7 +236,19 @@ pub fn generate(rng: &mut Rng, fault_free: bool) -> K17 {
     let refused_first = if !fault_free && rng.chance(0.2) { 1 + rng.below(8) as u32 } else { 0 };
     let proc_delay_us = if !fault_free && rng.chance(0.2) { (0..6).map(|_| *rng.pick(&[0u64, 0, 30_000, 200_000])).collect() } else { vec![] };
     let reconnect_at_us = if !fault_free && args.iter().any(|a| a == "--retry-tcp") && rng.chance(0.6) { Some(100_000 + rng.below(duration_us)) } else { None };
-    K17 { args, cols, rows, refused_first, lines, events, quit_at_us, quit_ctrl_c: rng.chance(0.3), proc_delay_us, reconnect_at_us, invalid_cli: None, rx: RX }
+    let sweep = if !fault_free && rng.chance(0.003) { 16_500 + rng.usize_below(1_500) } else { 0 };
+    if sweep > 0 {
+        // keep the session simple and long enough to work through the backlog
+        let quit_at_us = sweep as u64 * 10_600 + 3_000_000;
+        let mut events = events;
+        let n = events.len().max(1) as u64;
+        for (i, e) in events.iter_mut().enumerate() {
+            e.at_us = (i as u64 + 1) * quit_at_us / (n + 2);
+        }
+        let args: Vec<String> = args.into_iter().filter(|a| !a.starts_with("--filter-time") && a != "--retry-tcp" && !a.starts_with("--max-range") && a != "--limit-parsing").collect();
+        return K17 { args, cols, rows, refused_first: 0, lines, events, quit_at_us, quit_ctrl_c: false, proc_delay_us: vec![], reconnect_at_us: None, invalid_cli: None, rx: (35.0, -80.0), sweep };
+    }
+    K17 { args, cols, rows, refused_first, lines, events, quit_at_us, quit_ctrl_c: rng.chance(0.3), proc_delay_us, reconnect_at_us, invalid_cli: None, rx: RX, sweep: 0 }
 }
 
 pub fn compile(sc: &K17) -> KChild {
@@ -240,6 +257,31 @@ pub fn compile(sc: &K17) -> KChild {
         connects.push(KConnect { outcome: KOutcome::Refuse, segments: vec![], close_at_us: None, rst: false, eintr_reads: vec![] });
     }
     let seg = |t: u64, hex: &str| KSegment { at_us: t, hex: wire::hex(format!("*{hex};\n").as_bytes()) };
+    if sc.sweep > 0 {
+        let addr = [0x4b, 0x17, 0x01];
+        let mut segments = vec![];
+        let mut text = String::new();
+        let mut nseg = 0u64;
+        for i in 0..sc.sweep {
+            // a new 0.01 degree cell with every report: 130 columns, then the next row
+            let lat = sc.rx.0 - 0.6 + 0.0101 * (i / 130) as f64;
+            let lon = sc.rx.1 - 0.7 + 0.0101 * (i % 130) as f64;
+            let (yz, xz) = wire::cpr_encode(lat, lon, i % 2 == 1);
+            let f = wire::df17(5, addr, wire::me_airborne_position(11, 0, 0, wire::ac12_q(9_000), false, i % 2 == 1, yz, xz));
+            text.push_str(&format!("*{};\n", wire::hex(&f)));
+            if (i + 1) % 250 == 0 || i + 1 == sc.sweep {
+                segments.push(KSegment { at_us: 30_000 + nseg * 1_000, hex: wire::hex(text.as_bytes()) });
+                text.clear();
+                nseg += 1;
+            }
+        }
+        segments.extend(sc.lines.iter().map(|(t, h)| seg(*t + 30_000 + nseg * 1_000, h)));
+        connects.push(KConnect { outcome: KOutcome::Accept, segments, close_at_us: None, rst: false, eintr_reads: vec![] });
+        let mut events = sc.events.clone();
+        events.sort_by_key(|e| e.at_us);
+        events.push(KEvent { at_us: sc.quit_at_us.max(events.last().map(|e| e.at_us).unwrap_or(0)), ev: KEv::Key { code: "c:q".into(), ctrl: false, shift: false, alt: false } });
+        return KChild { connects, events, proc_delay_us: vec![], coalesce: vec![false], step_budget: 60_000 + 4 * sc.sweep as u64 };
+    }
     match sc.reconnect_at_us.filter(|_| sc.args.iter().any(|a| a == "--retry-tcp")) {
         Some(rc) => {
             connects.push(KConnect { outcome: KOutcome::Accept, segments: sc.lines.iter().filter(|(t, _)| *t < rc).map(|(t, h)| seg(*t, h)).collect(), close_at_us: Some(rc), rst: false, eintr_reads: vec![] });
@@ -283,9 +325,14 @@ pub fn execute(sc: &K17) -> Outcome {
     args.extend(sc.args.iter().cloned());
     let run = run_child(&Spec { exe: &exe("radar"), args, child: &child, tty: Some((sc.cols, sc.rows)), wall_limit: Duration::from_secs(30) });
     let mut vt = Vt::new();
+    vt.keep_from = sc.sweep as u64;
     vt.feed(&run.out);
     let log = parse_log(&run.seam_log);
     let p = Parsed { run, vt, log };
+    if sc.sweep > 0 {
+        out.fault("coverage_sweep_of_16000_cells");
+        out.probe("long_session_state_accumulated");
+    }
     h.str(&p.run.seam_log);
     h.bytes(&p.run.out);
     h.u64(p.run.code.unwrap_or(-1) as u64);
@@ -442,6 +489,11 @@ pub fn shrink(sc: &K17) -> Vec<K17> {
     if sc.reconnect_at_us.is_some() {
         c.push(K17 { reconnect_at_us: None, ..sc.clone() });
     }
+    if sc.sweep > 0 {
+        c.push(K17 { sweep: 0, ..sc.clone() });
+        c.push(K17 { sweep: sc.sweep / 2, ..sc.clone() });
+        c.push(K17 { sweep: sc.sweep - sc.sweep / 16, ..sc.clone() });
+    }
     // earlier quit = shorter run
     let last_ev = sc.events.iter().map(|e| e.at_us).max().unwrap_or(0);
     if sc.quit_at_us > last_ev + 200_000 {
@@ -456,7 +508,7 @@ pub fn describe(sc: &K17) -> Value {
         "traffic_lines": sc.lines.len(), "events_total": sc.events.len(),
         "first_events": sc.events.iter().take(12).map(|e| format!("t={}us {:?}", e.at_us, e.ev)).collect::<Vec<_>>(),
         "quit": format!("{} at {}us", if sc.quit_ctrl_c { "ctrl-c" } else { "q" }, sc.quit_at_us),
-        "server_drops_and_reaccepts_at_us": sc.reconnect_at_us,
+        "server_drops_and_reaccepts_at_us": sc.reconnect_at_us, "coverage_sweep_positions": sc.sweep,
         "invalid_cli": sc.invalid_cli,
     })
 }
